@@ -257,13 +257,16 @@ PLANS['C18'] = Plan(
 )
 
 PLANS['C19'] = Plan(
-    'C19', ['src/diagnostic/alignment_comparer.py::AlignmentRowComparer.__getCoverage'], 'other',
-    "Deductive part: AlignmentRowComparer.__getCoverage lies in [0,1], is 1 for an empty list or no exclusive pairs, and equals (n-d)/n (no division by zero). "
+    'C19', ['src/diagnostic/alignment_comparer.py::AlignmentRowComparer.__getCoverage', 'src/diagnostic/alignment_comparer.py::AlignmentComparison.create'], 'other',
+    "Deductive part: AlignmentRowComparer.__getCoverage lies in [0,1], is 1 for an empty list or no exclusive pairs, and equals (n-d)/n (no division by zero); "
+    "AlignmentComparison.create: overlapping + nonOverlapping + firstOnly + secondOnly = number of comparison rows, every row falling in exactly one of the four "
+    "classes (base and step of the induction over the rows discharged; induction schema applied at the meta level; needs identity 0 on rows present in one set "
+    "only). "
     "BOUNDED: AlignmentComparer.compare / AlignmentRowComparer.compare use dict, set and difflib.SequenceMatcher, outside the verifier: all pairs of small "
     "alignment sets (with duplicated keys, empty and duplicated-label pair lists), both settings of combineMultipleQuerySources: key partition, set "
     "differences, measures in [0,1], reflexivity, swap symmetry.",
     bounded=_lazy('bcheck.c19', 'bounded'), replay=_lazy('bcheck.c19', 'replay'),
-    technique='bounded exhaustive small-scope contract on the real comparer; deductive contract for the coverage formula',
+    technique='bounded exhaustive small-scope contract on the real comparer; deductive contracts for the coverage formula and for the partition of the rows into the four counts',
     assumptions=['dict / set / difflib based comparison: bounded only'],
 )
 PLANS['C20'] = Plan(
